@@ -17,6 +17,13 @@
 (*                    row written last) - re-initialised at the top of Sample,     *)
 (*                    re-bound after the group is known, `current` moved from      *)
 (*                    column to column                                              *)
+(* Every Sample takes its text apart with a Splitter object (AggSplit.tla: S,      *)
+(* Delim, cursor; Next / NextOk as splitter.go) - NUL for the counters and the      *)
+(* accumulating group, the delimiter of its construction (MCDelim: NUL, "::", ", ", *)
+(* "aab", a three-byte UTF-8 character) for the table; constant Search selects the  *)
+(* splitter as written, an equivalent rewrite, or a defective design (first byte    *)
+(* only / advance by one / delimiter as a byte set) that Sim must reject under a    *)
+(* multi-byte delimiter.                                                            *)
 (* Accessor calls are explicit steps (Observe): they leave the abstract state      *)
 (* alone but may touch the implementation state - Analyze re-orders the value      *)
 (* list, and with Memo # "none" ComputeMinMax stores its result.  Sim must hold     *)
@@ -38,6 +45,9 @@ CONSTANTS Which,      \* "ctr" | "sub" | "tbl" | "num" | "acc" : the aggregator 
                       \* "memokey"   : GetKey remembers, for the rest of the sample, what it answered for a key and
                       \*               does not notice the column being rewritten: Sim must FAIL where a column is
                       \*               read before and after its update (negative control)
+          Search,     \* the field splitter (AggSplit.tla): "index" (the code), "cut" (equivalent rewrite: Sim
+                      \* must hold), "firstbyte" / "advance1" / "anybyte" (negative controls: Sim must FAIL
+                      \* for a table constructed with a multi-byte delimiter)
           Memo        \* "none" : ComputeMinMax recomputes on every call (the code as written)
                       \* "ok"   : a memoising variant that drops the stored value in SampleItem AND Trim -
                       \*          a behaviour-preserving refactoring, Sim must still hold
@@ -52,6 +62,16 @@ vars  == <<ctr, sub, tbl, num, acc, cm, sk, tb, nm, ag, len>>
 bA == <<97>>   bB == <<98>>   bX == <<120>>   bY == <<121>>   bE == <<>>
 b2 == <<50>>   bM1 == <<45, 49>>   bM2 == <<45, 50>>   b0 == <<48>>   bZZ == <<122, 122>>   bP3 == <<43, 51>>
 El(parts) == JoinSeq(parts, <<NUL>>)
+\* the delimiter the table under test was constructed with (profiles 1, 2: the default)
+dCC == <<58, 58>>   dCS == <<44, 32>>   dAAB == <<97, 97, 98>>   dARR == <<226, 134, 146>>
+MCDelim ==
+  IF Which # "tbl" THEN DNUL
+  ELSE CASE Profile = 3 -> dCC          \* "::"   keys with a lone ":" (times), a key ending in ":"
+         [] Profile = 4 -> dCS          \* ", "   keys with a lone "," or a lone " "
+         [] Profile = 5 -> dAAB         \* "aab"  a delimiter with a repeated prefix, keys "a", "aa": "aaab.."
+         [] Profile = 6 -> dARR         \* U+2192 (3 bytes); keys holding its first byte(s) alone
+         [] OTHER -> DNUL
+ElD(parts) == JoinSeq(parts, MCDelim)
 
 \* numerical profiles >= 2: every value lies near a large base (in units)
 MCBaseText ==
@@ -77,8 +97,24 @@ MCElems ==
     [] Which = "tbl" /\ Profile = 1 ->
          {El(<<c>>) : c \in {bA, bB}} \cup {El(<<c, r>>) : c \in {bA, bB}, r \in {bX, bE}}
          \cup {El(<<c, r, i>>) : c \in {bA, bB}, r \in {bX, bE}, i \in {b2, b0, bZZ}}
-    [] Which = "tbl" -> {El(<<c, r>>) : c \in {bA, bB}, r \in {bX, bY}}
+    [] Which = "tbl" /\ Profile = 2 -> {El(<<c, r>>) : c \in {bA, bB}, r \in {bX, bY}}
                         \cup {El(<<c, r, bM1>>) : c \in {bA, bB}, r \in {bX, bY}}
+    \* multi-byte delimiters.  The samples are TEXTS: where a key ends in the delimiter's first byte the
+    \* leftmost occurrence straddles the joint ("b:" "::" "x" reads as "b", ":x") - the specification says
+    \* how such a text is read, not how it was meant.
+    [] Which = "tbl" /\ Profile = 3 ->
+         LET K == {<<49, 58, 51>>, bA, <<98, 58>>} IN                      \* "1:3"  "a"  "b:"
+         {ElD(<<c>>) : c \in K} \cup {ElD(<<c, r>>) : c \in K, r \in {<<58, 120>>, bE}}   \* rows ":x", ""
+         \cup {ElD(<<c, r, i>>) : c \in {<<49, 58, 51>>, bA}, r \in {bX}, i \in {b2, <<50, 58>>}}
+    [] Which = "tbl" /\ Profile = 4 ->
+         LET K == {<<97, 44, 98>>, <<97, 32, 98>>, bA} IN                  \* "a,b"  "a b"  "a"
+         {ElD(<<c, r>>) : c \in K, r \in {bX, <<32>>}} \cup {ElD(<<c, r, i>>) : c \in K, r \in {bX}, i \in {bM1, <<44, 50>>}}
+    [] Which = "tbl" /\ Profile = 5 ->
+         LET K == {bA, <<97, 97>>, bB, <<97, 98>>} IN                      \* "a" "aa" "b" "ab"
+         {ElD(<<c, r>>) : c \in K, r \in {bX, bA}} \cup {ElD(<<c, r, i>>) : c \in {bA, bB}, r \in {bX, bA}, i \in {b2}}
+    [] Which = "tbl" ->
+         LET K == {<<226>>, <<226, 134>>, <<195, 169>>, bA} IN            \* \xE2  \xE2\x86  U+00E9  "a"
+         {ElD(<<c, r>>) : c \in K, r \in {bX, <<134, 146>>}} \cup {ElD(<<c, r, i>>) : c \in K, r \in {bX}, i \in {b2}}
     [] Which = "num" /\ Profile = 1 ->
                         {<<49>>, <<50>>, <<45, 49, 46, 53>>, <<50, 46, 50, 53>>, <<48>>, bZZ, bE,
                          <<49, 46, 48>>, <<46, 53>>}
@@ -90,6 +126,7 @@ MCElems ==
 Pred(k, c, r, v) == [k |-> k, c |-> c, r |-> r, v |-> v]
 MCPreds ==
   IF Which # "tbl" THEN {}
+  ELSE IF Profile >= 3 THEN {Pred("col", bA, bE, 0), Pred("le", bE, bE, 1)}
   ELSE IF Profile = 1 THEN
     {Pred("all", bE, bE, 0), Pred("none", bE, bE, 0), Pred("col", bA, bE, 0), Pred("notcol", bA, bE, 0),
      Pred("row", bE, bX, 0), Pred("cell", bA, bX, 0), Pred("le", bE, bE, 0), Pred("gt", bE, bE, 1)}
@@ -97,15 +134,19 @@ MCPreds ==
 
 MCAccCfg == AccCfgOf(Profile)
 
+\* ---------------------------------------------------------- the Splitter in use
+\* the answers of the first n calls on Splitter{S: el, Delim: d} (Next = NextOk without the flag)
+Calls(el, d, n) == SpCalls(Search, el, d, n)
+
 \* ------------------------------------------------------------- MatchCounter
 CmInit == [matches |-> EmptyFn, total |-> 0, errors |-> 0]
 CmSampleValue(s, key, n) ==
   [matches |-> Upd(s.matches, key, Get0(s.matches, key) + n), total |-> s.total + n, errors |-> s.errors]
 CmSample(s, el) ==
-  LET p == Parts(el) IN
-  IF Len(p) >= 2
-  THEN (IF ParseIntOK(p[2]) THEN CmSampleValue(s, p[1], ParseIntVal(p[2])) ELSE [s EXCEPT !.errors = @ + 1])
-  ELSE CmSampleValue(s, p[1], 1)
+  LET c == Calls(el, DNUL, 2) IN        \* key := Next() ; val, hasVal := NextOk()
+  IF c[2].ok
+  THEN (IF ParseIntOK(c[2].ret) THEN CmSampleValue(s, c[1].ret, ParseIntVal(c[2].ret)) ELSE [s EXCEPT !.errors = @ + 1])
+  ELSE CmSampleValue(s, c[1].ret, 1)
 
 \* ------------------------------------------------------------ SubKeyCounter
 SkInit == [subKeys |-> <<>>, subKeyIdx |-> EmptyFn, rows |-> EmptyFn, errors |-> 0]
@@ -127,11 +168,11 @@ SkSampleValue(s, key, subkey, n) ==
       rows3 == IF has THEN rows2 ELSE [k \in DOMAIN rows2 |-> [rows2[k] EXCEPT !.vec = InsAt(@, idx, 0)]]
   IN [subKeys |-> keys3, subKeyIdx |-> kidx3, rows |-> [rows3 EXCEPT ![key].vec[idx] = @ + n], errors |-> s.errors]
 SkSample(s, el) ==
-  LET p == Parts(el)
-      key == p[1]
-      subkey == IF Len(p) >= 2 THEN p[2] ELSE <<>>
-  IN IF Len(p) >= 3
-     THEN (IF ParseIntOK(p[3]) THEN SkSampleValue(s, key, subkey, ParseIntVal(p[3])) ELSE [s EXCEPT !.errors = @ + 1])
+  LET c == Calls(el, DNUL, 3)           \* key := Next() ; subkey := Next() ; sVal, hasVal := NextOk()
+      key == c[1].ret
+      subkey == c[2].ret
+  IN IF c[3].ok
+     THEN (IF ParseIntOK(c[3].ret) THEN SkSampleValue(s, key, subkey, ParseIntVal(c[3].ret)) ELSE [s EXCEPT !.errors = @ + 1])
      ELSE SkSampleValue(s, key, subkey, 1)
 
 \* ---------------------------------------------------------- TableAggregator
@@ -144,11 +185,11 @@ TbSampleItem(s, col, row, n) ==
   IN [cols |-> Upd(s.cols, col, Get0(s.cols, col) + n), rows |-> Upd(s.rows, row, r1), errors |-> s.errors,
       mm |-> NoMM]
 TbSample(s, el) ==
-  LET p == Parts(el) IN
-  IF Len(p) >= 3
-  THEN (IF ParseIntOK(p[3]) THEN TbSampleItem(s, p[1], p[2], ParseIntVal(p[3])) ELSE [s EXCEPT !.errors = @ + 1])
-  ELSE IF Len(p) = 2 THEN TbSampleItem(s, p[1], p[2], 1)
-  ELSE TbSampleItem(s, p[1], <<>>, 1)
+  LET c == Calls(el, MCDelim, 3) IN     \* part0 := Next() ; part1, has1 := NextOk() ; part2, has2 := NextOk()
+  IF c[3].ok
+  THEN (IF ParseIntOK(c[3].ret) THEN TbSampleItem(s, c[1].ret, c[2].ret, ParseIntVal(c[3].ret)) ELSE [s EXCEPT !.errors = @ + 1])
+  ELSE IF c[2].ok THEN TbSampleItem(s, c[1].ret, c[2].ret, 1)
+  ELSE TbSampleItem(s, c[1].ret, <<>>, 1)
 
 Without(f, k) == [x \in DOMAIN f \ {k} |-> f[x]]
 RECURSIVE TrimRowLoop(_, _, _, _, _, _)
@@ -263,7 +304,7 @@ Init ==
 Sample(el) ==
   CASE Which = "ctr" -> ASampleCtr(el) /\ cm' = CmSample(cm, el) /\ UNCHANGED <<sk, tb, nm, ag>>
     [] Which = "sub" -> ASampleSub(el) /\ sk' = SkSample(sk, el) /\ UNCHANGED <<cm, tb, nm, ag>>
-    [] Which = "tbl" -> ASampleTbl(el) /\ tb' = TbSample(tb, el) /\ UNCHANGED <<cm, sk, nm, ag>>
+    [] Which = "tbl" -> ASampleTblD(el, MCDelim) /\ tb' = TbSample(tb, el) /\ UNCHANGED <<cm, sk, nm, ag>>
     [] Which = "num" -> ASampleNumB(el, MCBase) /\ nm' = NmSample(nm, el) /\ UNCHANGED <<cm, sk, tb, ag>>
     [] Which = "acc" -> ASampleAcc(el) /\ ag' = AgSample(ag, el) /\ UNCHANGED <<cm, sk, tb, nm>>
 \* the two map iterations of Trim may run in any order
@@ -340,7 +381,7 @@ ShiftLaw ==
   \A B \in {MCBase, BaseOfText(<<49, 55, 48, 48, 48, 48, 48, 48, 48, 48>>),
             BaseOfText(<<45, 57, 57, 57, 57, 57, 57, 57, 57, 57, 57, 57>>), BI(-1)} : ShiftLawAt(num, B)
 \* any two samples commute, read relative to the model's base
-CommuteB == CommuteAt(MCBase)
+CommuteB == CommuteAtD(MCBase, MCDelim)
 CommuteLe3 == len <= 3 => CommuteB       \* (the costly law on the shallower states of a deep run)
 \* text <-> value: every generated text reads back as its delta, in either spelling
 TextLaw ==
